@@ -13,6 +13,7 @@ pub struct RunOut {
     pub audits: Vec<(usize, u64, AuditReport)>,
     pub audit_count: u64,
     pub gc_forced: u64,
+    pub audit_budget_exhausted: bool,
     pub gc_policy_calls: u64,
     pub gc_freed_nonzero: u64,
     pub contexts: Vec<u64>,
@@ -138,6 +139,7 @@ fn run_case_inner(case: &Case, opts: &RunOpts) -> RunOut {
         audits: c.audits.clone(),
         audit_count: c.audit_count,
         gc_forced: c.gc_forced,
+        audit_budget_exhausted: c.audit_budget_exhausted,
         gc_policy_calls: c.gc_policy_calls,
         gc_freed_nonzero: c.gc_freed_nonzero,
         contexts,
